@@ -140,7 +140,8 @@ def judge(job):
     try:
         e_valid = schema.is_valid(xml)
         e_errors = errors_of(schema, xml)
-        e_data = schema.decode(xml, validation="lax")[0]
+        e_data, e_derrs = schema.decode(xml, validation="lax")
+        e_derrs = sorted(stable(e.reason)[:140] for e in e_derrs)
         e_all, e_d1 = eager_sequences(xml)
     except Exception as e:      # noqa: BLE001
         return [(about, "eager", f"raised {type(e).__name__}: {e}"[:200], None)], explored
@@ -149,8 +150,21 @@ def judge(job):
         try:
             l_valid = schema.is_valid(xmlschema.XMLResource(xml, lazy=1, thin_lazy=thin))
             l_errors = errors_of(schema, xmlschema.XMLResource(xml, lazy=1, thin_lazy=thin))
-            l_data = flatten_lazy(schema.decode(xmlschema.XMLResource(xml, lazy=1, thin_lazy=thin),
-                                                validation="lax")[0])
+            l_raw, l_derrs = schema.decode(xmlschema.XMLResource(xml, lazy=1, thin_lazy=thin), validation="lax")
+            l_data = flatten_lazy(l_raw)
+            inline = []
+
+            def walk(x):
+                if isinstance(x, Exception):
+                    inline.append(x)
+                elif isinstance(x, dict):
+                    for v in x.values():
+                        walk(v)
+                elif isinstance(x, list):
+                    for v in x:
+                        walk(v)
+            walk(l_data)
+            l_derrs = sorted(stable(e.reason)[:140] for e in list(l_derrs) + inline)
             l_it, l_d1, l_f1 = lazy_sequences(xml, thin)
         except Exception as e:      # noqa: BLE001
             out.append((about, tag, f"raised {type(e).__name__}: {e}"[:200], None))
@@ -162,6 +176,20 @@ def judge(job):
         cmp = compare_errors(l_errors, e_errors, 1, padded=about.startswith("identity-padded"))
         if cmp:
             out.append((about, tag, f"errors {l_errors} vs fully loaded {e_errors}"[:900], cmp[0], cmp[1]))
+        if l_derrs != e_derrs:
+            missing, extra = list(e_derrs), []
+            for x in l_derrs:
+                if x in missing:
+                    missing.remove(x)
+                else:
+                    extra.append(x)
+            fid = None
+            if not extra and missing and all(any(m in x for m in IDENT_MARKS) for x in missing):
+                fid = "F-C06-n"     # constraints declared above the streamed depth are not evaluated by lazy DECODING
+            elif not missing and all("is not an element of the schema" in x for x in extra):
+                fid = "F-C06-o"     # an undeclared streamed element gets an additional error of its own
+            out.append((about, tag, f"lax decoding reports {l_derrs}, fully loaded: {e_derrs}"[:700], "decode-errors",
+                        fid))
         if not same_data(l_data, e_data):
             out.append((about, tag, f"decoded data {l_data!r} vs fully loaded {e_data!r}"[:600], "data",
                         known("data", "", about, l_data, e_data)))
